@@ -786,7 +786,48 @@ def rule_index_capture(run):
     c03.rule_index_capture(run)   # a run-time index is captured in a fresh temporary assigned in the state that uses it
 
 
-RULES = [rule_fdef, rule_leaf, rule_order, rule_state_check, rule_arms, rule_cleanup, rule_writeback, rule_state_root, rule_refspec_reads, rule_names, rule_assignment_siblings, rule_blocks, rule_always_locality, rule_backend_empty, rule_visit_stateless, rule_definitions_are_expressions, rule_index_capture]
+def rule_alias_flag(run):
+    """A Signal declared inside a sequential context is read through an alias Temporary.  `maybe_uninitialized`
+    exempts a temporary from the definite-assignment pass; the alias may carry the flag only when the user set it
+    on the declared object itself - inherited from anything else (the initial value, ...), an alias written in one
+    branch and read after it is silently accepted."""
+    run.begin("C08.alias", "the alias temporary of a locally declared Signal takes maybe_uninitialized from the declared object only", floor=1)
+    pm = run.idx.mod("cohdl/_compiler/frontend/_prepare_ast.py")
+    n = 0
+    for q, f in pm.functions.items():
+        for a in walk_local(f.node):
+            if not (isinstance(a, ast.Assign) and isinstance(a.value, ast.Call) and src(a.value.func).startswith("Temporary[") and "new_obj" in src(a.value.func)):
+                continue
+            kw = [k for k in a.value.keywords if k.arg == "maybe_uninitialized"]
+            n += 1
+            if not kw:
+                run.ob(True, q, file=pm.rel, line=a.lineno, detail="alias-flag", expected="flag of the declared object or absent", found="absent")
+                continue
+            v = kw[0].value
+            if isinstance(v, ast.Name):   # one level of local dataflow
+                defs = [x for x in walk_local(f.node) if isinstance(x, ast.Assign) and any(isinstance(t, ast.Name) and t.id == v.id for t in x.targets)]
+                if len(defs) != 1:
+                    raise AnalysisError(f"{q}: maybe_uninitialized of the alias comes from local `{v.id}` with {len(defs)} definitions")
+                v = defs[0].value
+            leaves = []
+            for x in ast.walk(v):
+                if isinstance(x, ast.Attribute) and not isinstance(pm.parents.of(x), ast.Attribute):
+                    leaves.append(dotted(x) or src(x))
+                elif isinstance(x, ast.Call):
+                    leaves.append("call:" + src(x.func))
+                elif isinstance(x, ast.Name) and not isinstance(pm.parents.of(x), ast.Attribute):
+                    leaves.append(x.id)
+            bad = [l for l in leaves if not (l.endswith(".new_obj._maybe_uninitialized") or l in ("True", "False"))]
+            # constant True would exempt every alias
+            bad += [l for l in leaves if l == "True"]
+            run.ob(not bad, q, file=pm.rel, line=a.lineno, detail="alias-flag", expected="maybe_uninitialized=<declared object>._maybe_uninitialized",
+                   found=src(kw[0].value)[:100] if bad else "ok")
+    if n == 0:
+        raise AnalysisError("anchor vanished: alias Temporary of a locally declared Signal in _prepare_ast.py")
+    run.end()
+
+
+RULES = [rule_fdef, rule_leaf, rule_order, rule_state_check, rule_arms, rule_cleanup, rule_writeback, rule_state_root, rule_refspec_reads, rule_names, rule_assignment_siblings, rule_blocks, rule_always_locality, rule_backend_empty, rule_visit_stateless, rule_definitions_are_expressions, rule_index_capture, rule_alias_flag]
 
 LEVEL = "other"
 EXPLANATION = (
